@@ -18,7 +18,8 @@ Definition sproj := list (str * sjob).
 (* spec handle: project root, state point cell; bookkeeping used ONLY for the known-finding triggers:
    [sh_dk] the real handle has _directory_known set, [sh_doc] it holds a document object created when the
    job had generation g *)
-Record shandle := mkSH { sh_root : path; sh_cell : nat; sh_dk : bool; sh_doc : option nat }.
+(* [sh_byid]: obtained by id (or a copy of such a handle): it may not know its state point *)
+Record shandle := mkSH { sh_root : path; sh_cell : nat; sh_dk : bool; sh_doc : option nat; sh_byid : bool }.
 
 Record sstate := mkSS {
   ss_projs : list (path * sproj);
@@ -46,7 +47,7 @@ Fixpoint pset {A} (p : path) (x : A) (l : list (path * A)) : list (path * A) :=
 Definition proj_of (s : sstate) (r : path) : sproj := match plookup r (ss_projs s) with Some p => p | None => [] end.
 Definition set_proj (s : sstate) (r : path) (p : sproj) : sstate :=
   mkSS (pset r p (ss_projs s)) (ss_sess s) (ss_hs s) (ss_cells s) (ss_gen s) (ss_planted s) (ss_orph s).
-Definition hS (s : sstate) (h : nat) : shandle := nth h (ss_hs s) (mkSH [] 0 false None).
+Definition hS (s : sstate) (h : nat) : shandle := nth h (ss_hs s) (mkSH [] 0 false None false).
 Definition cellS (s : sstate) (c : nat) : json := nth c (ss_cells s) (JObj []).
 Definition set_hS (s : sstate) (h : nat) (x : shandle) : sstate :=
   mkSS (ss_projs s) (ss_sess s) (set_nth h x (ss_hs s)) (ss_cells s) (ss_gen s) (ss_planted s) (ss_orph s).
@@ -100,14 +101,14 @@ Section Spec.
     set_proj s (sh_root x) (aset (cid (cellS s (sh_cell x))) j (proj_of s (sh_root x))).
 
   Definition mark_dk (s : sstate) (h : nat) : sstate :=
-    let x := hS s h in set_hS s h (mkSH (sh_root x) (sh_cell x) true (sh_doc x)).
+    let x := hS s h in set_hS s h (mkSH (sh_root x) (sh_cell x) true (sh_doc x) (sh_byid x)).
   (* the handle creates its document object now (if it has none), for the current generation of its job *)
   Definition mark_doc (s : sstate) (h : nat) : sstate :=
     let x := hS s h in
     match sh_doc x with
     | Some _ => s
     | None => set_hS s h (mkSH (sh_root x) (sh_cell x) true
-                               (Some (match job_of s h with Some j => j_gen j | None => 0 end)))
+                               (Some (match job_of s h with Some j => j_gen j | None => 0 end)) (sh_byid x))
     end.
 
   (* the state point of the job changes to [new] through handle h (sp[k]=v, del, assignment, update_statepoint) *)
@@ -127,18 +128,18 @@ Section Spec.
               let s1 := bump (set_cellS (set_proj s (sh_root x) p') (sh_cell x) new) in
               (* every handle of the cell drops its document object *)
               (* ... and init() of one of them sets _directory_known (bookkeeping: all of them) *)
-              (map_cell s1 (sh_cell x) (fun y => mkSH (sh_root y) (sh_cell y) true None), SOk)
+              (map_cell s1 (sh_cell x) (fun y => mkSH (sh_root y) (sh_cell y) true None (sh_byid y)), SOk)
           end
       end.
 
   Definition new_handle (s : sstate) (r : path) (sp : json) (dk : bool) : sstate :=
-    add_hS (add_cellS s sp) (mkSH r (length (ss_cells s)) dk None).
+    add_hS (add_cellS s sp) (mkSH r (length (ss_cells s)) dk None dk).
 
   Definition created (out : oval) : bool := match out with VStr _ => true | _ => false end.
 
   (* one operation; [out] = what the implementation returned (used only to know whether a handle was created
      and which id an open-by-prefix resolved to) *)
-  Definition sstep (s : sstate) (o : op) (out : oval) : sstate * sres :=
+  Definition sstep0 (s : sstate) (o : op) (out : oval) : sstate * sres :=
     match o with
     | ONewSession r =>
         let s1 := add_sessS s r in
@@ -186,7 +187,7 @@ Section Spec.
         if created out then
           let x := hS s h in
           let s1 := add_sessS (add_cellS s (cellS s (sh_cell x))) (sh_root x) in
-          let s2 := add_hS s1 (mkSH (sh_root x) (length (ss_cells s)) (sh_dk x) (sh_doc x)) in
+          let s2 := add_hS s1 (mkSH (sh_root x) (length (ss_cells s)) (sh_dk x) (sh_doc x) (sh_byid x)) in
           (* the copy of a cell that still lists a moved handle lists (a copy of) it too *)
           (if existsb (Nat.eqb (sh_cell x)) (ss_orph s) then
              mkSS (ss_projs s2) (ss_sess s2) (ss_hs s2) (ss_cells s2) (ss_gen s2) (ss_planted s2)
@@ -218,7 +219,7 @@ Section Spec.
                      let s1 := set_proj s (sh_root x) (aremove (cid sp) (proj_of s (sh_root x))) in
                      let s2 := bump (set_proj s1 r' (aset (cid sp) (mkSJ sp (j_doc j) (j_files j) (ss_gen s)) (proj_of s1 r'))) in
                      (* only this handle adopts the destination; it gets a cell of its own *)
-                     let s3 := set_hS (add_cellS s2 sp) h (mkSH r' (length (ss_cells s2)) false None) in
+                     let s3 := set_hS (add_cellS s2 sp) h (mkSH r' (length (ss_cells s2)) false None false) in
                      (mkSS (ss_projs s3) (ss_sess s3) (ss_hs s3) (ss_cells s3) (ss_gen s3) (ss_planted s3)
                            (sh_cell x :: ss_orph s3), SOk)
                  end
@@ -240,7 +241,7 @@ Section Spec.
     | ORemove h =>
         let x := hS s h in
         let s1 := set_proj s (sh_root x) (aremove (cid (cellS s (sh_cell x))) (proj_of s (sh_root x))) in
-        (set_hS s1 h (mkSH (sh_root x) (sh_cell x) false None), SOk)
+        (set_hS s1 h (mkSH (sh_root x) (sh_cell x) false None (sh_byid x)), SOk)
     | OClear h =>
         match job_of s h with
         | Some j => (mark_doc (set_job s h (mkSJ (j_sp j) (JObj []) [] (j_gen j))) h, SOk)
@@ -254,10 +255,25 @@ Section Spec.
     | OUpdateCache _ | OCheck _ | OTree | OQuiet | OSnap => (s, SAny)
     end.
 
-  (* ---------------------------------------------------------------- triggers of the known defects *)
-  Definition suffix_id_name (n : str) : bool :=
-    Nat.ltb 32 (length n) && forallb lower_hex (firstn 32 n).
+  Definition op_handle (o : op) : option nat :=
+    match o with
+    | OInit h _ | OSp h | OCached h | ODoc h | ODocReset h _ | ODocSet h _ _ | OCopy h | ODeepCopy h | OPickle h
+    | OEdit h _ _ | OAssign h _ | OUpdateSp h _ _ | OMove h _ | OClone _ h | OReset h => Some h
+    | _ => None
+    end.
 
+  (* A handle obtained by id that has no job any more may not know its state point: it is allowed to refuse
+     to act with JobsCorruptedError, provided nothing changes (since fix 270ca63 it no longer leaves an empty
+     directory behind). *)
+  Definition sstep (s : sstate) (o : op) (out : oval) : sstate * sres :=
+    match op_handle o, out with
+    | Some h, VExn EJobsCorrupted =>
+        if sh_byid (hS s h) && match job_of s h with None => true | Some _ => false end
+        then (s, SErr EJobsCorrupted) else sstep0 s o out
+    | _, _ => sstep0 s o out
+    end.
+
+  (* ---------------------------------------------------------------- triggers of the known defects *)
   (* the handle's lazily cached fields are out of date w.r.t. the spec: its job is gone although the handle
      believes the directory exists, or it holds a document object of an earlier incarnation of the job *)
   Definition stale_handle (s : sstate) (h : nat) : bool :=
@@ -267,36 +283,19 @@ Section Spec.
     | Some j => match sh_doc x with Some g => negb (Nat.eqb g (j_gen j)) | None => false end
     end.
 
-  (* (tag 1, F2: a planted "<32 hex><suffix>" directory counted as a job, was repaired in /repo, fix 5a38a4a)
-     tag 2: a re-key fails with DestinationExists (the
-     in-memory state point stays modified); tag 3: a document-touching operation through a stale handle;
-     tag 4: a state point change raises the lock registry's KeyError *)
-  (* tag 5: a handle opened by id that never loaded its state point cannot re-create / find its job once the
-     job has disappeared: JobsCorruptedError (and init leaves an empty id-named directory behind) *)
-  Definition lazy_gone (r : sres) (out : oval) : nat :=
-    match r, out with
-    | SErr EJobsCorrupted, _ => 0
-    | _, VExn EJobsCorrupted => 5
-    | _, _ => 0
-    end.
-
+  (* tags 1, 2, 5, 6, 7 were repaired in /repo (5a38a4a, 5e72814, 270ca63, b6340e2, d38783c) and are no longer
+     classified.  tag 3: a document-touching operation through a stale handle; tag 4: a state point change
+     raises the lock registry's KeyError *)
   Definition trigger (s : sstate) (o : op) (r : sres) (out : oval) : nat :=
     match o with
-    | OEdit h _ _ | OAssign h _ | OUpdateSp h _ _ =>
-        (* tag 7: the state point is changed through a shallow copy of a handle that was moved to another
-           project: the moved handle is still the first of the cell's _jobs *)
-        if existsb (Nat.eqb (sh_cell (hS s h))) (ss_orph s) then 7 else
+    | OEdit _ _ _ | OAssign _ _ | OUpdateSp _ _ _ =>
         match r, out with
-        | SErr EDestinationExists, _ => 2
         | SErr EKeyError, _ => 0
-        | _, VExn EKeyError => 4      (* tag 4: the lock registry lost the entry of this handle's state point file *)
-        | _, _ => lazy_gone r out
+        | _, VExn EKeyError => 4
+        | _, _ => 0
         end
     | ODoc h | ODocSet h _ _ | ODocReset h _ | OClear h | OReset h | ORemove h =>
-        if stale_handle s h then 3 else lazy_gone r out
-    | OInit _ _ | OSp _ | OMove _ _ | OClone _ _ | OCopy _ | OPickle _ | OCached _ => lazy_gone r out
-    (* tag 6: open_job(id = a string that is not an id) succeeds when workspace/<string> exists *)
-    | OOpenId _ _ => match out with VStr m => if is_id m then 0 else 6 | _ => 0 end
+        if stale_handle s h then 3 else 0
     | _ => 0
     end.
 
